@@ -35,6 +35,7 @@ type SchemaSpec struct {
 	Rules  []RuleRef
 	Types  []TypeRef
 	IsType bool // meant to be added to roots (still a full Schema object)
+	Ext    bool // entry of the root-kind extension (pool_roots.go): in AllRoots() only, so that x/c12 keeps its pool
 }
 
 // UsesAllOf: the text carries an allOf rule (such an object is rewritten in
@@ -116,6 +117,12 @@ func ty(name, id string) TypeRef    { return TypeRef{Name: name, Kind: KSchema, 
 func rx(name string, i int) TypeRef { return TypeRef{Name: name, Kind: KRegex, Spec: i} }
 
 func init() {
+	initBasePool()
+	initRootKinds()
+	badDocs = malformedDocs()
+}
+
+func initBasePool() {
 	t := func(id, text string) { Schemas = append(Schemas, SchemaSpec{ID: id, Text: text, IsType: true}) }
 	t("t_num", `1 // {min: 0}`)
 	t("t_str", `"s" // {minLength: 1}`)
@@ -193,8 +200,20 @@ func init() {
 	r("r_dupname", `{"a": @num}`, nil, ty("@num", "t_num"), ty("@num", "t_str")) // second AddType: duplicate name
 }
 
-// Roots lists the indices of the root specs.
+// Roots lists the indices of the root specs of the base pool (the pool x/c12
+// draws from as well).
 func Roots() []int {
+	var out []int
+	for i, s := range Schemas {
+		if !s.IsType && !s.Ext {
+			out = append(out, i)
+		}
+	}
+	return out
+}
+
+// AllRoots: base pool + the root-kind extension of pool_roots.go.
+func AllRoots() []int {
 	var out []int
 	for i, s := range Schemas {
 		if !s.IsType {
